@@ -2,6 +2,7 @@
 from __future__ import annotations
 
 import re
+import time
 
 import z3
 
@@ -9,8 +10,8 @@ from contracts.invariants import OPTIONAL_ATTRS, SLOTS
 
 from .front import ClassInfo, FuncInfo, Repo
 from .smt import FALSE, TRUE, Smt, conj
-from .state import Effect, Frame, MergeAbort, Outcome, PathEnd, State, Unsupported, Write
-from .values import (B, CallA, Dyn, Elems, Fn, HObj, I, IteV, K, Lit, MapPart, Obj, PreSeq, S, Sym, Tags, Tu, V)
+from .state import Effect, Frame, MergeAbort, Outcome, PathEnd, Restart, State, Unsupported, Write
+from .values import (B, CallA, Dyn, Elems, Fn, Gen, HObj, I, IteV, K, Lit, MapPart, Obj, PreSeq, S, Sym, Tags, Tu, V)
 
 # methods that are called through their family contract when the receiver is not `self`/exact
 CONTRACT_METHODS = {
@@ -117,10 +118,10 @@ class ExecCore:
         self.dec: Decisions | None = None
         self.frames: list[Frame] = []
         self.inline_stack: list[FuncInfo] = []
-        self._oid = 0
-        self._cid = 0
-        self._lid = 0
-        self._sym = 0
+        self.idp = "r"
+        self.idc = 0
+        self.memo: dict = {}
+        self.memo_hits = 0
         self.symspec: dict[str, str] = {}
         self.path_obj: dict[str, int] = {}
         self.calls: dict[int, Effect] = {}
@@ -132,28 +133,34 @@ class ExecCore:
         self.no_contract: set = set()
         self.merge_marks: list = []
         self.nomerge_calls: set = set()
+        self.deadline = None
+        self.notes_global: set = set()
+        self._assigned_cache: dict = {}
+        self.nomerge_ifs: set = set()
+        self.contract_self_methods: set = set()
         self.cur_line = 0
 
     # ------------------------------------------------------------------ ids
-    def new_oid(self):
-        self._oid += 1
-        return self._oid
+    # Identifiers are deterministic functions of the execution history (exploration nesting + decisions taken),
+    # so that replays of a shared path prefix allocate identical ids; this makes z3 query caching and the
+    # memoisation of nested explorations possible.
+    def new_id(self) -> str:
+        self.idc += 1
+        return f"{self.idp}.{self.idc}"
 
-    def new_cid(self):
-        self._cid += 1
-        return self._cid
-
-    def new_lid(self):
-        self._lid += 1
-        return self._lid
+    new_oid = new_cid = new_lid = new_id
 
     def fresh_name(self, base):
-        self._sym += 1
-        return f"{base}#{self._sym}"
+        return f"{base}#{self.new_id()}"
 
     # ------------------------------------------------------------------ exploration
     def explore(self, run, start: State | None = None, limit=None, keep_merge=False) -> list[Outcome]:
         """enumerate all feasible paths of `run()` (a closure executing on self.st) by decision replay"""
+        eid = self.new_id()
+        saved_ids = (self.idp, self.idc)
+        if start is not None and eid in self.memo:
+            self.memo_hits += 1
+            return [self._clone_outcome(o) for o in self.memo[eid]]
         outcomes = []
         work = [()]
         saved_st, saved_dec = self.st, self.dec
@@ -164,14 +171,18 @@ class ExecCore:
         top = saved_frames[-1] if saved_frames else None
         top_locals = dict(top.locals) if top is not None else None
         n = 0
+        outermost = self.dec is None
         try:
             while work:
                 prefix = work.pop()
                 n += 1
+                if self.deadline is not None and time.time() > self.deadline:
+                    raise Unsupported("time budget exhausted")
                 if n > (limit or self.MAX_PATHS):
                     raise Unsupported("path explosion")
                 self.st = base.snapshot()
                 self.dec = Decisions(prefix)
+                self.idp, self.idc = eid + "/", 0
                 self.frames = list(saved_frames)
                 self.inline_stack = list(saved_inline)
                 if top is not None:
@@ -181,6 +192,13 @@ class ExecCore:
                     value = run()
                 except PathEnd as pe:
                     status, value = pe.kind, pe.value
+                except Restart as rs:
+                    if not outermost:
+                        raise
+                    self.nomerge_ifs |= set(rs.keys)
+                    self.memo.clear()
+                    outcomes, work, n = [], [()], 0
+                    continue
                 d = self.dec
                 for i in d.open:
                     work.append(tuple(d.made[:i]) + (False,))
@@ -190,7 +208,10 @@ class ExecCore:
                 if status != "infeasible":
                     outcomes.append(Outcome(status, value, self.st, tuple(d.made),
                                             locals=dict(top.locals) if top is not None else {}))
+            if start is not None:
+                self.memo[eid] = [self._clone_outcome(o) for o in outcomes]
         finally:
+            self.idp, self.idc = saved_ids
             self.merge_depth = saved_md
             if top is not None:
                 top.locals = top_locals
@@ -199,8 +220,17 @@ class ExecCore:
             self.inline_stack = saved_inline
         return outcomes
 
+    def _clone_outcome(self, o):
+        import dataclasses
+        st = o.state.snapshot()
+        st.effects = [dataclasses.replace(e) for e in st.effects]
+        st.writes = [dataclasses.replace(w) for w in st.writes]
+        return Outcome(o.status, o.value, st, o.decisions, o.exc, dict(o.locals), None)
+
     def decide(self, f) -> bool:
         """branch on z3 formula f under the current path condition"""
+        if self.deadline is not None and time.time() > self.deadline:
+            raise Unsupported("time budget exhausted")
         f = z3.simplify(f) if not isinstance(f, bool) else z3.BoolVal(f)
         if z3.is_true(f):
             return True
@@ -232,6 +262,8 @@ class ExecCore:
         if self.dec is None:
             raise Unsupported("decision outside exploration")
         d = self.dec.next()
+        self.idp += "T" if d else "F"
+        self.idc = 0
         self.st.pc.append(f if d else z3.Not(f))
         if tf is not None:
             path, names, allowed = tf
@@ -289,6 +321,8 @@ class ExecCore:
                 return B(self.smt.atom(path))
             if parts == ["int"]:
                 return I(self.smt.int(path))
+            if parts == ["querycls"]:
+                return Fn("class", self.repo.cls("queries.Query"))
             label = ""
             for lab in ("name", "sql", "value"):
                 if lab in parts:
@@ -379,6 +413,13 @@ class ExecCore:
             return ("cattr", r[1], name)
         if spec is not None:
             return ("optslot", spec)
+        asg = self.assigned_attrs(ci).get(name)
+        if asg == "init":
+            self.unknown_slots.add((ci.short, name))
+            return ("slot", "any")
+        if asg == "lazy":
+            self.unknown_slots.add((ci.short, name))
+            return ("optslot", "any")
         hook = ci.resolve("__getattr__")
         if hook is not None and not (name.startswith("__") and name.endswith("__")):
             return ("hook", hook[1])
@@ -437,12 +478,19 @@ class ExecCore:
             return Fn("class", ci)
         # instance dict (with shallow-copy fall-through)
         cur = h
+        root = h
         while cur is not None:
             if name in cur.deleted:
                 break
             if name in cur.attrs:
                 return cur.attrs[name]
+            root = cur
             cur = self.st.heap.get(cur.parent) if cur.parent is not None else None
+        if root is not h and not root.fresh and name not in h.deleted:
+            # shallow copy of a pre-state object: instance attributes come from the original
+            ci0 = root.cls or (self.possible_classes(root) or [None])[0]
+            if ci0 is not None and self.slot_spec(ci0, name) is not None:
+                return self.get_attr(Obj(root.oid), name, default, probe)
         if name in CONTRACT_METHODS and h.cls is None:
             return Fn("contract", name, v)
         classes = self.possible_classes(h)
@@ -509,9 +557,11 @@ class ExecCore:
         if k[0] == "cattr":
             return self.class_attr(k[1], name, inst=v)
         if k[0] == "hook":
-            if default is not None or probe:
-                # getattr(x, name, default) still invokes __getattr__
-                pass
+            if h.cls is None and k[1].cls is not None and k[1].cls.name == "Not":
+                # contract of Not.__getattr__ on a symbolic receiver: a pure delegation to the wrapped term;
+                # the result is opaque (its body is verified separately for C15 with an exact receiver)
+                val = Sym(f"{h.path}.{name}", None)
+                return val
             return self.call_function(k[1], [v, K(name)], {}, self_val=v)
         return self._missing(v, h, name, default, probe)
 
@@ -615,9 +665,9 @@ class ExecCore:
             return self.class_attr(r[1], name)
         if v.kind == "super":
             inst, after = v.self_, v.extra
-            ci = self.cls_of(inst)
+            ci = self.cls_of(inst) if isinstance(inst, (Obj, K)) else None
             if ci is None:
-                raise Unsupported("super() on object of unknown class")
+                ci = after          # receiver class not exact: resolve along the defining class's own MRO
             r = ci.resolve_after(after, name)
             if r is None:
                 if name == "__init__":
@@ -640,17 +690,50 @@ class ExecCore:
     def check_merge_write(self, target):
         """inside a merged arm only objects allocated within the arm may be written"""
         if self.merge_depth:
-            if not isinstance(target, Obj) or target.oid <= self.merge_marks[-1]:
+            if not isinstance(target, Obj) or not str(target.oid).startswith(self.merge_marks[-1] + "/"):
                 raise MergeAbort()
 
+    def note(self, n: str):
+        self.st.notes.append(n)
+        self.notes_global.add(n)
+
+    def assigned_attrs(self, ci: ClassInfo) -> dict:
+        """instance attributes assigned as self.<name> = ... anywhere in the MRO: name -> 'init' | 'lazy'"""
+        key = ci.qual
+        c = self._assigned_cache.get(key)
+        if c is not None:
+            return c
+        import ast as _ast
+        out = {}
+        for k in ci.mro:
+            for fname, fi in k.methods.items():
+                if not fi.node.args.args:
+                    continue
+                selfname = fi.node.args.args[0].arg
+                for n in _ast.walk(fi.node):
+                    tgt = None
+                    if isinstance(n, (_ast.Assign, _ast.AnnAssign, _ast.AugAssign)):
+                        tgts = n.targets if isinstance(n, _ast.Assign) else [n.target]
+                        for t in tgts:
+                            if isinstance(t, _ast.Attribute) and isinstance(t.value, _ast.Name) and \
+                                    t.value.id == selfname:
+                                kind = "init" if fname == "__init__" else "lazy"
+                                if out.get(t.attr) != "init":
+                                    out[t.attr] = kind
+        self._assigned_cache[key] = out
+        return out
+
     def log_write(self, target: V, kind: str, attr: str, value=None, lineno=0, note=""):
+        if isinstance(value, Gen) or (isinstance(value, Tu) and any(isinstance(i, Gen) for p in value.parts
+                                                                      if isinstance(p, Elems) for i in p.items)):
+            self.note(f"gen-stored:{self.ident(target)}.{attr}")
         if isinstance(target, Obj):
             h = self.hobj(target)
             oid, owned, path = h.oid, h.fresh, h.path
         elif isinstance(target, K):
-            oid, owned, path = -1, False, f"<global {type(target.v).__name__}>"
+            oid, owned, path = "-1", False, f"<global {type(target.v).__name__}>"
         else:
-            oid, owned, path = -2, False, repr(target)
+            oid, owned, path = "-2", False, repr(target)
         fn = self.frames[-1].func.short if self.frames and self.frames[-1].func else "?"
         self.st.writes.append(Write(oid, kind, attr, owned, conj(self.st.pc), path, value, lineno, fn,
                                     self.in_loop > 0, note))
